@@ -43,7 +43,9 @@ def arg_pool(n):
     P = bridge.P
     # neighbours differ only in their CLASS (same fields): x1 / X1, exists / mu -- anything keyed on field values confuses them
     return [P.EVar(0), P.EVar(1), P.SVar(1), P.MetaVar(0), P.Exists(0, P.EVar(1)), P.Mu(0, P.EVar(1)), P.Symbol('s'),
-            P.App(P.EVar(0), P.EVar(1)), P.Implies(P.EVar(0), P.EVar(1))][:n]
+            P.App(P.EVar(0), P.EVar(1)), P.Implies(P.EVar(0), P.EVar(1)),
+            # symbols whose names differ only in white space (K domain values become symbol names verbatim)
+            P.Symbol('a b'), P.Symbol('a  b'), P.Symbol(' a b'), P.Symbol('a\tb')][:n]
 
 
 def notation_chunk(args):
@@ -51,7 +53,7 @@ def notation_chunk(args):
     from . import bridge
     groups = notations()
     name, opts, nots = groups[gidx]
-    pool = arg_pool(pool_n)
+    pool = arg_pool(pool_n) if pool_n > 0 else arg_pool(13)[pool_n:]      # negative: only the last entries (the white-space twins)
     rend = [p.pretty(opts) for p in pool]
     assert len(set(rend)) == len(rend)
     out = {'evals': 0, 'distinct_pairs': 0, 'viol': []}
@@ -277,7 +279,7 @@ def replay(path: str) -> int:
     if 'notation' in sig:
         for gi, (name, opts, nots) in enumerate(notations()):
             if any(n.label == sig['notation'] for n in nots):
-                out = notation_chunk((gi, 9))
+                out = notation_chunk((gi, 13))
                 bad = [w for s, w in out['viol'] if s['notation'] == sig['notation']]
                 for w in bad[:3]:
                     print('still failing:', w)
@@ -293,7 +295,7 @@ def main(argv=None) -> int:
     thorough = chk.tier == 'thorough'
     agg: dict = {}
     ng = len(notations())
-    for out in par.pmap(notation_chunk, [(g, 9 if thorough else 7) for g in range(ng)]):
+    for out in par.pmap(notation_chunk, [(g, 13 if thorough else 7) for g in range(ng)] + [(g, -4) for g in range(ng)]):
         for k, v in out.items():
             if k == 'viol':
                 for sig, what in v:
@@ -322,7 +324,7 @@ def main(argv=None) -> int:
                     'every (module, optimise setting, phase) file pair')
     chk.set('exhaustive', True)
     chk.set('detail', agg)
-    chk.set('bounds', {'notation_groups': ng, 'argument_pool': 9 if thorough else 7, 'module_specs': len(specs)})
+    chk.set('bounds', {'notation_groups': ng, 'argument_pool': 13 if thorough else 7, 'whitespace_twins': 4, 'module_specs': len(specs)})
     chk.sample({'notation_pair': 'equiv(x0, x1) vs equiv(x1, x0)'})
     chk.sample({'module_spec': [str(x) for x in specs[len(specs) // 3]]})
     chk.assume('instruction decoder and listing parser are in mc/c19.py; Instantiate ids are listed in key order by the pretty printer and in reverse key order in the binary')
